@@ -36,7 +36,7 @@ ANCHORS = [
     "acnportal.acnsim.models.battery:Linear2StageBattery._charge_stepwise",
     "acnportal.acnsim.models.ev:EV.charge",
 ]
-REQUIRED = ["charge_calls_judged", "regime:ideal", "regime:l2-continuous", "regime:l2-stepwise",
+REQUIRED = ["calls_with_voltage_or_period_changing_on_one_battery", "battery_json_round_trips_mid_sequence", "charge_calls_judged", "regime:ideal", "regime:l2-continuous", "regime:l2-stepwise",
             "regime:l2-continuous+noise", "regime:l2-stepwise+noise", "sim_cells_checked", "suite:charge_calls_judged", "resets_above_capacity", "resets_within_capacity"]
 BUDGET_S = {"quick": 200, "thorough": 2400}
 
@@ -122,7 +122,10 @@ def _seq_case(rng, force=None):
         b["noise"] = rng.choice([0, 0, _logu(rng, 0.01, 5)])
     return {"kind": "seq", "batt": b, "V": rng.choice([120, 208, 240, 277, round(rng.uniform(100, 500), 1)]),
             "T": rng.choice([0.1, 0.5, 1, 5, 7.5, 15, 60, 120, round(rng.uniform(0.1, 120), 2)]),
-            "n": rng.choice([1, 5, 30, 100, 200]), "pseed": rng.randrange(1 << 30)}
+            "n": rng.choice([1, 5, 30, 100, 200]), "pseed": rng.randrange(1 << 30),
+            # one battery object seen by supplies of different voltage / period lengths from call to call (an EV reused on
+            # another network, stations of different voltage), and written to JSON and restored in the middle
+            "vary": rng.random() < 0.3, "json_p": rng.choice([0, 0, 0.05])}
 
 
 def _corpus():
@@ -234,7 +237,15 @@ def _run_seq(case, obs):
         elif r < 0.05 and cap is not None:
             batt.reset(rng.uniform(0, cap))
             obs.ev("resets_within_capacity")
-        batt.charge(p, case["V"], case["T"])
+        V_, T_ = case["V"], case["T"]
+        if case.get("vary"):
+            V_ = rng.choice([case["V"], 120, 208, 240, 277, 400, 480])
+            T_ = rng.choice([case["T"], case["T"], 1, 5, 15])
+            obs.ev("calls_with_voltage_or_period_changing_on_one_battery")
+        if case.get("json_p") and rng.random() < case["json_p"]:
+            batt = type(batt).from_json(batt.to_json())
+            obs.ev("battery_json_round_trips_mid_sequence")
+        batt.charge(p, V_, T_)
         obs.regime(name)
         if b["t"] == "l2" and c0 is not None:
             c1 = battery_state(batt)[0]
